@@ -133,6 +133,8 @@ where
                                 );
                             }
 
+                            #[cfg(feature = "getong_stateright_verif")]
+                            crate::verif::yield_point("on_demand:loop_top");
                             if wait_for_fingerprints {
                                 // Step 0: wait for someone to ask us to do work
                                 loop {
@@ -208,6 +210,8 @@ where
                             }
 
                             // Step 2: Share work.
+                            #[cfg(feature = "getong_stateright_verif")]
+                            crate::verif::yield_point("on_demand:after_block");
                             if pending.len() > 1 && thread_count > 1 {
                                 job_broker.split_and_push(&mut pending);
                             }
@@ -253,6 +257,8 @@ where
         max_count: usize,
         global_max_depth: &AtomicUsize,
     ) {
+        #[cfg(feature = "getong_stateright_verif")]
+        let max_count = crate::verif::block_size(max_count);
         let properties = model.properties();
 
         let mut current_max_depth = global_max_depth.load(Ordering::Relaxed);
